@@ -14,3 +14,9 @@ pub assume_specification<T, F: FnOnce(T) -> bool>[ Option::<T>::is_none_or ](thi
 
 pub assume_specification<T>[ bool::then_some ](this: bool, t: T) -> (r: Option<T>)
     ensures r == (if this { Some(t) } else { None::<T> });
+
+pub assume_specification<T>[ Option::<T>::or ](this: Option<T>, optb: Option<T>) -> (r: Option<T>)
+    ensures r == (if this is Some { this } else { optb });
+
+pub assume_specification<T>[ Option::<T>::replace ](this: &mut Option<T>, value: T) -> (r: Option<T>)
+    ensures r == *old(this), *final(this) == Some(value);
